@@ -18,9 +18,22 @@
 //	      Oracle: a primitive returns exactly E, a composite a non-nil error;
 //	      the base state snapshotted by the failure function when it returns E
 //	      is unchanged at the next consultation / at return; no panic
-//	      afterwards. Coverage assertion over the FnVFS enumeration.
+//	      afterwards; and a twin base that does NOT execute the failed call is
+//	      driven in lock-step, so that every later call of the history (let
+//	      through by the failure function) must answer and leave the base
+//	      exactly as on the twin (sys.stepFault). Coverage assertion over the
+//	      FnVFS enumeration.
+//	(ii') handle programmes (fault.go, expandHandle): open; [one File call];
+//	      File method F made to fail; every File method G; Close - for every
+//	      pool open, F, consultation, E and G: an injected failure of a File
+//	      method has no effect on the handle either (after a failed Close the
+//	      handle still reads, writes, seeks, stats and closes as the twin base
+//	      handle that was never closed).
 //	(iii) engine A with failfs.ReadOnlyFunc installed: the base dump including
-//	      modification times is identical around every call of the alphabet.
+//	      contents and modification times is identical around every call of
+//	      the alphabet, whatever the call returned; the OpenFile flag alphabet
+//	      includes access mode O_RDONLY with O_TRUNC / O_CREATE /
+//	      O_CREATE|O_EXCL / O_APPEND on every path.
 package main
 
 import (
@@ -39,6 +52,7 @@ import (
 
 	"verif/lib/bfs"
 	"verif/lib/ev"
+	"verif/lib/fsx"
 	"verif/lib/kf"
 )
 
@@ -59,6 +73,15 @@ func die(format string, a ...any) {
 	os.Exit(2)
 }
 
+func flagStrings() []string {
+	out := make([]string, len(flagSets))
+	for i, f := range flagSets {
+		out[i] = fsx.FlagString(f)
+	}
+
+	return out
+}
+
 func fnNames(m map[avfs.FnVFS]bool) []string {
 	var out []string
 	for fn := range m {
@@ -75,7 +98,7 @@ func main() {
 	tier := flag.String("tier", "quick", "quick|thorough")
 	replay := flag.String("replay", "", "replay file to re-execute")
 	bases := flag.String("bases", "MemFS,OrefaFS", "base file systems")
-	only := flag.String("only", "", "run only these parts (comma list of: fault,none,okfunc,readonly)")
+	only := flag.String("only", "", "run only these parts (comma list of: fault,handle,none,okfunc,readonly)")
 	depthF := flag.Int("depth", 0, "override the history bound of all parts")
 
 	var w1, w2 string
@@ -110,8 +133,15 @@ func main() {
 	rep.Discover = os.Getenv("VERIF_DISCOVER") != ""
 
 	bfsDepth, faultHist := 2, 2
+
+	// File calls put between the open and the failing call of a handle programme
+	// (besides none): position moved by a read, a write, a seek, a directory
+	// read, and a handle that is already closed
+	handlePres := []string{"Read(4)", `Write("XY")`, "Seek(1,1)", "ReadDir(1)", "Close()"}
+
 	if *tier == "thorough" {
 		bfsDepth, faultHist = 3, 3
+		handlePres = []string{"*"}
 	}
 
 	if *depthF > 0 {
@@ -161,21 +191,30 @@ func main() {
 	// ---- (ii) fault enumeration, histories <= 2 -------------------------------
 	var engines []*faultEngine
 
-	if part("fault") {
+	if part("fault") || part("handle") {
 		for _, b := range baseNames {
 			fe := newFaultEngine(b)
 			engines = append(engines, fe)
 
-			for l := 0; l < faultHist && l < 2; l++ {
-				fe.runLevel(at(0.30), report)
+			if part("fault") {
+				for l := 0; l < faultHist && l < 2; l++ {
+					fe.runLevel(at(0.30), report)
+				}
+
+				fmt.Printf("C12 fault %s: letters=%d histories=%d (length<=%d complete) fault-free runs=%d single-fault runs=%d states=%d\n",
+					b, fe.probe.NumOps(), fe.Histories, fe.HistLen, fe.FaultFree, fe.FaultRuns, fe.States)
+			}
+
+			if part("handle") {
+				fe.runHandle(handlePres, at(0.40), report)
+
+				fmt.Printf("C12 handle programmes %s: opening prefixes=%d (pre in %v) fault-free runs open;[pre];F=%d single-fault runs open;[pre];F fails;G;Close=%d twin followed to the end in %d %s\n",
+					b, fe.HPrefixes, handlePres, fe.HProgs, fe.HRuns, fe.HFollowed, fe.HPartial)
 			}
 
 			if fe.HarnessErr != "" {
 				harnessErr = "fault enumeration on " + b + ": " + fe.HarnessErr
 			}
-
-			fmt.Printf("C12 fault %s: letters=%d histories=%d (length<=%d complete) fault-free runs=%d single-fault runs=%d states=%d\n",
-				b, fe.probe.NumOps(), fe.Histories, fe.HistLen, fe.FaultFree, fe.FaultRuns, fe.States)
 		}
 	}
 
@@ -285,6 +324,8 @@ func main() {
 
 	var (
 		runs, faultRuns, histories int
+		hprogs, hruns, hfollowed   int
+		hprefixes                  int
 		fsamples                   []any
 	)
 
@@ -311,9 +352,13 @@ func main() {
 			foutcomes[k] += n
 		}
 
-		runs += fe.FaultFree + fe.FaultRuns
+		runs += fe.FaultFree + fe.FaultRuns + fe.HProgs
 		faultRuns += fe.FaultRuns
 		histories += fe.Histories
+		hprogs += fe.HProgs
+		hruns += fe.HRuns
+		hfollowed += fe.HFollowed
+		hprefixes += fe.HPrefixes
 
 		for _, s := range fe.Samples {
 			fsamples = append(fsamples, s)
@@ -442,12 +487,23 @@ func main() {
 			"evaluations":         runs,
 			"distinct_nontrivial": len(classes),
 			"rule": "evaluations = executions of a whole history on fresh real instances in part (ii): one fault-free run per history (recording always-nil failure function, " +
-				"lock-step with the twin base) + one run per (consultation index k of its trace, error E in {private sentinel, *fs.PathError{ErrPermDenied}}); " +
+				"lock-step with the twin base) + one run per (consultation index k of its trace, error E in {private sentinel, *fs.PathError{ErrPermDenied}}), " +
+				"each in lock-step with a twin base that skips the failed call; plus the handle programmes: one fault-free run per (opening prefix, File method F) and one run " +
+				"'prefix; F with consultation k returning E; G; Close' per (prefix, F, k, E, File method G), counted in single_fault_runs as well; " +
 				"distinct_nontrivial = number of distinct (FnVFS id of the failing consultation, harness-level method it fired in, E, outcome class: exact-E | other-error:<errno> | nil | PANIC | DEADLOCK) " +
 				"classes whose injected consultation was reached and returned E in the run (checked against the run's own trace)",
-			"samples":                       samples,
-			"histories":                     histories,
-			"single_fault_runs":             faultRuns,
+			"samples":           samples,
+			"histories":         histories,
+			"single_fault_runs": faultRuns,
+			"handle_programmes": map[string]any{
+				"shape":                        "open (every pool open of slot 0 on the FailFS, and through Sub(\"/\") on MemFS); [pre]; F fails; G; Close - F, G: every File method of the alphabet",
+				"opening_prefixes":             hprefixes,
+				"pre":                          append([]string{"(none)"}, handlePres...),
+				"fault_free_runs":              hprogs,
+				"single_fault_runs":            hruns,
+				"twin_followed_to_the_end":     hfollowed,
+				"openflag_alphabet_every_path": flagStrings(),
+			},
 			"fault_classes":                 classNames,
 			"plans_injected_per_fn":         injNames,
 			"fn_covered":                    coveredNames,
@@ -462,16 +518,24 @@ func main() {
 			"bfs_outcomes_distinct":         len(boutcomes),
 			"bfs_systems":                   stats,
 			"exhaustive":                    bfsExh && faultExh && harnessErr == "",
-			"bound": fmt.Sprintf("(i)/(iii) all histories of length <= %d (completed %d) per system; (ii) all single-fault plans of all histories of length <= %d (completed %d)",
-				bfsDepth, depthDone, faultHist, histDone),
+			"bound": fmt.Sprintf("(i)/(iii) all histories of length <= %d (completed %d) per system, OpenFile with %d flag sets (4 of them O_RDONLY plus TRUNC / CREATE / CREATE|EXCL / APPEND) on each of %d paths; "+
+				"(ii) all single-fault plans of all histories of length <= %d (completed %d), twin in lock-step before and after the failure; "+
+				"(ii') all handle programmes open;[pre];F fails;G;Close with pre in {none, %s} (\"*\" = every File call), every File method F (every consultation, both errors) and every File method G (%d letters)",
+				bfsDepth, depthDone, len(flagSets), len(nsPaths), faultHist, histDone, strings.Join(handlePres, ", "), len(fileCalls())),
 			"known_findings_matched": append([]string{}, rep.KnownMatched()...),
 		},
 		Assumptions: []string{
 			"one fault per run; errors injected: a private errors.New sentinel and &fs.PathError{Op:\"x\",Path:\"y\",Err:avfs.ErrPermDenied}",
 			"base state = injected node-graph dump (names, types, permission bits, owners, bytes, link counts, hard-link classes, link targets) + cwd + umask + current user of the base; " +
 				"the read-only plan adds the modification time of every entry and ignores cwd/umask/user, which the statement does not list",
-			"offsets of base handles behind a FailFile are not observable from outside: 'untouched' is checked on the file system state, not on the position of the base handle",
-			"after the injected failure the remaining calls of a history are only required not to panic inside FailFS and to leave the untouched clause intact; calls before it are compared with the twin in the fault-free run",
+			"state of the base handle behind a FailFile (open/closed, offset, directory position) is not observable directly: 'untouched' is checked on the file system state when the failure is injected, " +
+				"and on the handle through the results of the later calls of the history, compared with the twin base handle on which the failed call was not executed",
+			"fault plan: the twin does not execute the call made to fail when it is a primitive (File method or VFS method that consults only its own id) or a composite whose first and only consultation failed; " +
+				"when a composite (Create, WriteFile, ReadFile, ReadDir, Glob, MkdirTemp, CreateTemp, WalkDir) fails half-way its partial effects cannot be mirrored: the twin is dropped and the remaining calls " +
+				"are only required not to panic inside FailFS and to leave the untouched clause intact; calls before the failure are judged by the fault-free run (twin in lock-step)",
+			"handle programmes: one File call at most between the open and the failing call, one follow-up call G and the final Close after it; handle slot 0 only (slots are symmetric); " +
+				"histories that interleave calls on other objects between the failure and the follow-up are covered only within the general bound of (ii)",
+			"read-only plan: 'cannot be changed' = node-graph dump with contents and modification times identical before/after every call, independent of what the call returned",
 			"handles or file systems returned together with an error are not pooled",
 			"small scope: 9 paths, <= 2 handle slots, 1 Sub slot (MemFS only: OrefaFS has no Sub), temp names supplied by the harness (0,0,1,1,... forcing one collision per later temp call)",
 			"sequential execution (verifrt.ModeSeq): a self-deadlock is decided, not timed out",
@@ -483,8 +547,8 @@ func main() {
 		die("evidence: %v", err)
 	}
 
-	fmt.Printf("c12: tier=%s bfs systems=%d states=%d transitions=%d (depth %d/%d) | fault: histories=%d runs=%d single-fault=%d classes=%d length %d/%d | FnVFS covered %d/%d (+%d listed unreachable) | new signatures=%d exhaustive=%v wall=%.1fs\n",
-		*tier, len(stats), states, trans, depthDone, bfsDepth, histories, runs, faultRuns, len(classes), histDone, faultHist,
+	fmt.Printf("c12: tier=%s bfs systems=%d states=%d transitions=%d (depth %d/%d) | fault: histories=%d runs=%d single-fault=%d (of which handle programmes=%d, twin followed=%d) classes=%d length %d/%d | FnVFS covered %d/%d (+%d listed unreachable) | new signatures=%d exhaustive=%v wall=%.1fs\n",
+		*tier, len(stats), states, trans, depthDone, bfsDepth, histories, runs, faultRuns, hruns, hfollowed, len(classes), histDone, faultHist,
 		len(coveredNames), len(allFn()), len(unreachableFn), rep.NewCount(), bfsExh && faultExh && harnessErr == "", ev.Elapsed())
 
 	os.Exit(code)
